@@ -97,8 +97,24 @@ func init() {
 	// ---- math.LegacyDec (raw 10^18-scaled integers)
 	bin(mDec+"Add", "+", iv)
 	bin(mDec+"Sub", "-", iv)
-	bin(mDec+"Mul", "decMul", iv)
-	bin(mDec+"MulTruncate", "decMulTrunc", iv)
+	// x*S times y chops exactly to x*y (no rounding): algebraic simplification at term construction
+	exact := func(op string) {
+		pure(mDec+op[0:0]+map[string]string{"decMul": "Mul", "decMulTrunc": "MulTruncate"}[op], func(x *X, s *State, a []Val) Val {
+			x.nn(s, a[0], a[1])
+			l, r := tm(a[0]), tm(a[1])
+			for _, pr := range [][2]string{{l, r}, {r, l}} {
+				if strings.HasPrefix(pr[0], "(* ") && strings.HasSuffix(pr[0], " S)") {
+					inner := pr[0][3 : len(pr[0])-3]
+					if balanced(inner) {
+						return iv(sApp("*", inner, pr[1]))
+					}
+				}
+			}
+			return iv(sApp(op, l, r))
+		})
+	}
+	exact("decMul")
+	exact("decMulTrunc")
 	bin(mDec+"MulInt", "*", iv)
 	bin(mDec+"GT", ">", bv)
 	bin(mDec+"GTE", ">=", bv)
